@@ -347,7 +347,7 @@ RAW['C03'] += [
   let wh := snd (run_history RC OC P always fuel init_world h) in
   AllValid RC OC wh -> roots_below ord fuel ops -> (forall t, In t (roots ops) -> get_task_output wh t <> None) ->
   AllValid RC OC (snd (run_history RC OC P always fuel init_world (h ++ [HSession ops])))""",
-   'intros gen wck ord RC OC P sf always HS HWF HWO HRefl HReflO fuel h ops. exact (requires_of_known_tasks_keep_AllValid gen wck ord RC OC P sf always HS HWF HWO HRefl HReflO fuel h ops).'),
+   'intros gen wck ord RC OC P sf always HS HWF HWO HRefl HReflO fuel h ops. exact (requires_of_known_tasks_keep_AllValid gen wck ord RC OC P sf always HS HWF HWO fuel h ops).'),
 ]
 
 RAW['C04'] = [
